@@ -6,9 +6,11 @@ import signal
 from .. import core, frame, fault, gen
 
 PROP = "C07"
+# online trace rule: a source file is only ever replaced by renaming a complete temporary file over it
+TRACE_RULE_PHASES = ("src-write-through-name", "src-open-for-writing", "src-unlink", "src-renamed-away", "src-truncate", "src-ftruncate")
 ERR_FOR_KIND = {
     "openr": ["EIO", "EACCES", "EMFILE"], "openw": ["EIO", "ENOSPC", "EACCES", "EROFS"], "write": ["EIO", "ENOSPC", "EDQUOT"],
-    "rename": ["EIO", "ENOSPC", "EACCES", "EXDEV"], "unlink": ["EIO", "EACCES"], "close": ["EIO"], "opendir": ["EIO", "EACCES"],
+    "rename": ["EIO", "ENOSPC", "EACCES", "EXDEV", "EPERM", "EBUSY", "EEXIST", "ENOENT"], "unlink": ["EIO", "EACCES"], "close": ["EIO"], "opendir": ["EIO", "EACCES"],
     "fsync": ["EIO"],
 }
 
@@ -94,14 +96,14 @@ def work(job):
     if rec.panicked():
         res["inconclusive"]["run-panicked (C17's business)"] = 1
     res["nontrivial"].append("%s|%s|%s|%s" % (proj.label, k, action, "x" if xdev else ""))
-    res["counters"]["fired_%s" % (action if action.startswith("kill") or action == "short" else "errno")] = 1
+    res["counters"]["fired_%s" % (action if action.startswith("kill") or action == "short" else ("persistent" if action.startswith("persistent") else "errno"))] = 1
     res["counters"]["phase_%s" % phase] = 1
     for st in set(states.values()):
         res["counters"]["poststate_" + st.split(":")[0]] = 1
     # online trace rule: nothing is written through a name that is already a source file
-    through = [o for o in (rec.shim or []) if fault.phase_of(o) in ("src-write-through-name", "src-open-for-writing")]
+    through = [o for o in (rec.shim or []) if fault.phase_of(o) in TRACE_RULE_PHASES]
     torn = {rel: s for rel, s in states.items() if s.startswith("torn")}
-    act_class = action if action in ("kill-before", "kill-after", "short") else "errno"
+    act_class = action if action in ("kill-before", "kill-after", "short") else ("persistent-errno" if action.startswith("persistent") else ("errno+kill" if "+kill" in action else "errno"))
     for rel, s in sorted(torn.items()):
         res["violations"].append({"signature": "C07.%s|%s|%s" % (s, act_class, phase),
                                   "detail": {"file": rel, "state": s, "k": k, "action": action, "phase": phase, "end": rec.ended(),
@@ -150,16 +152,18 @@ def main(tier):
             ck.inconc("op sequence not deterministic for %s" % proj.label)
         # clean-run trace rule
         for o in ops:
-            if fault.phase_of(o) in ("src-write-through-name", "src-open-for-writing"):
+            if fault.phase_of(o) in TRACE_RULE_PHASES:
                 ck.violation("C07.write-through-source-name|clean-run|%s" % fault.phase_of(o), {"op": o, "project": proj.label},
                              {"project": pi, "k": 0, "action": "none", "rules": None})
         for k, action, rules in inj:
             jobs.append((built, pi, proj, expected, k, action, rules, fault.phase_of(ops[k - 1])))
         # second-order points: after a failed rename / temp create the run continues on an error path with operations the
         # clean run never performs; every one of those is a crash point too (fault at k, then kill before/after each later op j)
-        first_order = [(k, a, r) for k, a, r in inj if not a.startswith("kill") and a != "short" and ops[k - 1]["kind"] in ("rename", "openw")]
-        cap2 = 6 if tier == "quick" else 40
-        for k, a, r in first_order[:cap2]:
+        ren_ops = [o["n"] for o in ops if o["kind"] == "rename" and o["path"].endswith(".tmp") and "Breadlog.lock" not in o["path"]]
+        crt_ops = [o["n"] for o in ops if fault.phase_of(o) == "tmp-create"]
+        pick_k = set(ren_ops[:2] + crt_ops[:1]) if tier == "quick" else set(ren_ops[:6] + crt_ops[:3])
+        first_order = [(k, a, r) for k, a, r in inj if not a.startswith("kill") and a != "short" and k in pick_k]
+        for k, a, r in first_order:
             rec1, _, _, fired1 = run_injection(built, proj, expected, k, a, r)
             if not fired1 or not rec1.shim:
                 continue
@@ -168,6 +172,12 @@ def main(tier):
                 o = rec1.shim[j - 1]
                 for act in ("kill-before", "kill-after"):
                     jobs.append((built, pi, proj, expected, "%d+%d" % (k, j), a + "+" + act, "%s;n=%d,act=%s" % (r, j, act), fault.phase_of(o)))
+        # persistent faults: every rename (temp create, temp write) fails with E for the whole run
+        for e in ("EIO", "EACCES", "EPERM", "EXDEV", "ENOSPC", "EBUSY", "EEXIST"):
+            for kind, scope in (("rename", "kind=rename,path~=breadlog-"), ("openw", "kind=openw,path~=breadlog-"), ("write", "kind=write,path~=breadlog-")):
+                if kind != "rename" and e in ("EXDEV", "EBUSY", "EEXIST", "EPERM"):
+                    continue
+                jobs.append((built, pi, proj, expected, "all-%s" % kind, "persistent-" + e, "%s,act=errno:%d" % (scope, fault.ERRNO[e]), "persistent:" + kind))
         # a genuine cross-device TMPDIR: every rename fails with a real EXDEV; all operations of that run are crash points
         if pi in (0, 3) or tier == "thorough":
             xops, _, xrec, _, _ = fault.clean_reference(built, proj, xdev=True)
@@ -248,7 +258,7 @@ def replay_witness(w, ck=None, built=None):
     proj = ps[c["project"]]
     ops, after, rec, expected, lock = fault.clean_reference(built, proj)
     if not c.get("rules"):
-        return any(fault.phase_of(o) in ("src-write-through-name", "src-open-for-writing") for o in ops)
+        return any(fault.phase_of(o) in TRACE_RULE_PHASES for o in ops)
     phase = "?"
     r = work((built, c["project"], proj, expected, c["k"], c["action"], c["rules"], phase, c.get("xdev", False)))
     return bool(r["violations"])
